@@ -101,10 +101,15 @@ def declare(t, c, default):
         kw["length"] = 2
     if t == "List" and c["it"] != "none":
         kw["item_type"] = {"int": int, "str": str, "float": float}[c["it"]]
+    if c.get("dn"):
+        kw.pop("default", None)
+        default = None
     if t in ("Selector", "ListSelector"):
-        kw["objects"] = {"strs": ["a", "b"], "ints": [1, 2], "mixed": [1, "a", 1.5], "dictints": {"one": 1, "two": 2}}[c["objs"]]
+        kw["objects"] = {"strs": ["a", "b"], "ints": [1, 2], "mixed": [1, "a", 1.5], "dictints": {"one": 1, "two": 2}, "empty": []}[c["objs"]]
     if t == "ClassSelector":
         kw["class_"] = {"int": int, "str": str, "float": float, "intstr": (int, str), "bool": bool, "list": list, "dict": dict}[c["cls"]]
+    if c.get("dn"):
+        return getattr(param, t)(**kw)
     return getattr(param, t)(default=default, **kw)
 
 
@@ -114,7 +119,27 @@ def strict_loads(text):
     return json.loads(text, parse_constant=bad)
 
 
+class ApiError(Exception):
+    """a public param call raised on input that is inside the property's domain"""
+
+
+def api(what, fn, *a, **kw):
+    try:
+        return fn(*a, **kw)
+    except Exception as e:  # noqa
+        raise ApiError("%s raised %s: %s" % (what, type(e).__name__, str(e)[:200]))
+
+
 def replay(tab, opts):
+    try:
+        return _replay(tab, opts)
+    except ApiError as e:
+        t, c = tab["t"], tab["c"]
+        return {"status": "diverge", "step": 0, "kind": "exception", "msg": "%s %s: %s" % (t, {k: v for k, v in c.items() if v not in (NOB,)}, e),
+                "expected": None, "observed": None, "tags": [], "nontrivial": True, "kf": []}
+
+
+def _replay(tab, opts):
     t, c = tab["t"], tab["c"]
     cases = sorted(tab["cases"], key=lambda cs: json.dumps(cs["v"], sort_keys=True))
     res = {"status": "ok", "nontrivial": len(cases) > 1 or bool(tab["probes"]), "kf": []}
@@ -125,18 +150,26 @@ def replay(tab, opts):
                 "expected": exp, "observed": got, "tags": [], "nontrivial": True, "kf": []}
 
     nn = [cs for cs in cases if cs["v"]["k"] != "none"] or cases
-    P = type("P", (param.Parameterized,), {"x": declare(t, c, mk(nn[0]["v"])), "other": param.Integer(3)})
+    P = type("P", (param.Parameterized,), {"x": declare(t, c, mk(nn[0]["v"])), "values": param.Integer(3)})
     serialized = []
     for cs in cases:
         v = mk(cs["v"])
         want = tojson(cs["ser"])
+        # the default None of a Selector / ListSelector declared without a default is a state of every fresh
+        # object, but not an assignable value: it is observed on a fresh class (C16) and not rebuilt (C15)
+        born_none = v is None and c.get("dn") and not c["an"]
+        if born_none and mode == "roundtrip":
+            continue
         for level in ("instance", "class"):
-            if level == "instance":
+            if born_none:
+                P0 = type("P", (param.Parameterized,), {"x": declare(t, c, None), "values": param.Integer(3)})
+                owner = P0() if level == "instance" else P0
+            elif level == "instance":
                 owner = P(x=v)
             else:
                 P.x = v
                 owner = P
-            text = owner.param.serialize_parameters(subset=["x"])
+            text = api("serialize_parameters(subset=['x'])", owner.param.serialize_parameters, subset=["x"])
             try:
                 got = strict_loads(text)
             except ValueError as e:
@@ -145,10 +178,21 @@ def replay(tab, opts):
                 return fail("subset", "%s level: subset=['x'] produced keys %s" % (level, sorted(got)))
             if mode in ("both", "roundtrip") and not samejson(got["x"], want):
                 return fail("serialized", "%s level: %r serialized as %r, spec expects %r" % (level, v, got["x"], want), want, got["x"])
-            if level == "instance":
+            if level == "instance" and not born_none:
                 serialized.append(got["x"])
-            if mode in ("both", "roundtrip"):
-                kwargs = P.param.deserialize_parameters(text)
+            if born_none and mode in ("both", "schema"):
+                # validated against the schema of the class it was born in (the class default is still None there)
+                try:
+                    schema0 = json.loads(json.dumps(owner.param.schema(subset=["x"])["x"]))
+                except Exception as e:  # noqa
+                    return fail("schema", "param.schema() raised %s: %s" % (type(e).__name__, e))
+                out0 = validator(schema0, [got["x"]] + serialized)
+                if not out0["wellformed"]:
+                    return fail("schema_malformed", "param.schema() is not a well-formed JSON Schema: %s -- %s" % (out0["error"], schema0))
+                if not out0["valid"][0]:
+                    return fail("valid_state_rejected", "%s level: the state a fresh object is born in (%r) does not validate against the generated schema %s" % (level, got["x"], schema0), True, False)
+            if mode in ("both", "roundtrip") and not born_none:
+                kwargs = api("deserialize_parameters(%s)" % text, P.param.deserialize_parameters, text)
                 try:
                     back = P(**kwargs).x
                 except Exception as e:  # noqa
@@ -156,33 +200,46 @@ def replay(tab, opts):
                 if not same(back, v):
                     return fail("roundtrip", "%s level: %r (%s) came back as %r (%s) via %s" % (level, v, type(v).__name__, back, type(back).__name__, text),
                                 repr(v), repr(back))
-                one = owner.param.serialize_value("x")
+                if isinstance(back, (list, dict)):
+                    # what was handed out is the caller's: changing it in place must not change what the
+                    # same text deserializes to next time
+                    for victim in (back, kwargs["x"]):
+                        if isinstance(victim, list):
+                            victim.append("mutated")
+                        elif isinstance(victim, dict):
+                            victim["mutated"] = 1
+                    again = api("rebuilding from %s a second time, after the first result was mutated in place," % text,
+                                lambda: P(**P.param.deserialize_parameters(text)).x)
+                    if not same(again, v):
+                        return fail("roundtrip", "%s level: deserializing %s a second time, after the first result was mutated in place, gave %r (original %r)"
+                                    % (level, text, again, v), repr(v), repr(again))
+                one = api("serialize_value('x')", owner.param.serialize_value, "x")
                 if not samejson(strict_loads(one), want):
                     return fail("serialize_value", "serialize_value gave %s, spec expects %r" % (one, want))
-                back1 = P.param.deserialize_value("x", one)
+                back1 = api("deserialize_value('x', %s)" % one, P.param.deserialize_value, "x", one)
                 if not same(back1, v):
                     return fail("deserialize_value", "deserialize_value(%s) gave %r, original %r" % (one, back1, v))
         if mode in ("both", "roundtrip"):
-            o = P(x=v, other=5)
+            o = P(x=v, values=5)
             for sb in tab["subsets"]:
                 for sub in (list(sb["sub"]), tuple(sb["sub"]), set(sb["sub"])):
-                    text = o.param.serialize_parameters(subset=sub)
+                    text = api("serialize_parameters(subset=%r)" % (sub,), o.param.serialize_parameters, subset=sub)
                     got = strict_loads(text)
                     if set(got) != set(sb["keys"]):
                         return fail("subset", "serialize_parameters(subset=%r) produced keys %s, spec expects %s" % (sub, sorted(got), sorted(sb["keys"])))
-                    kwargs = P.param.deserialize_parameters(text, subset=sub)
+                    kwargs = api("deserialize_parameters(%s, subset=%r)" % (text, sub), P.param.deserialize_parameters, text, subset=sub)
                     if set(kwargs) != set(sb["keys"]):
                         return fail("subset", "deserialize_parameters(%s, subset=%r) produced keys %s" % (text, sub, sorted(kwargs)))
-                    o2 = P(**kwargs)
+                    o2 = api("P(**%r)" % (kwargs,), P, **kwargs)
                     for k in sb["keys"]:
                         if not same(getattr(o2, k), getattr(o, k)):
                             return fail("roundtrip", "subset=%r: %s came back as %r, original %r" % (sub, k, getattr(o2, k), getattr(o, k)))
-                    alltext = o.param.serialize_parameters()
-                    kw2 = P.param.deserialize_parameters(alltext, subset=sub)
+                    alltext = api("serialize_parameters()", o.param.serialize_parameters)
+                    kw2 = api("deserialize_parameters(<all>, subset=%r)" % (sub,), P.param.deserialize_parameters, alltext, subset=sub)
                     if set(kw2) != set(sb["keys"]):
                         return fail("subset", "deserialize_parameters(<all>, subset=%r) produced keys %s" % (sub, sorted(kw2)))
-            full = strict_loads(P(x=v).param.serialize_parameters())
-            if set(full) != {"name", "x", "other"}:
+            full = strict_loads(api("serialize_parameters()", P(x=v).param.serialize_parameters))
+            if set(full) != {"name", "x", "values"}:
                 return fail("keys", "serialize_parameters() without subset has keys %s" % sorted(full))
     if mode in ("both", "schema") and tab["schema"]["ty"] != "none":
         try:
